@@ -1,5 +1,6 @@
 import Properties.C04
 import Properties.C07
+import Proofs.NoSlip
 /-! # C04 (continued) — frame indifference of the whole solver right-hand side `eval_rhs`
 
 `actY Q n` is the action of a frame rotation on the packed solver vector
@@ -138,5 +139,52 @@ theorem rhs_objective (Q : Mat3) (hQ : IsOrth Q) (phase fabric : Int) (n : ℕ) 
   simp only [packY, rhsScale] at hu ⊢
   rw [hu]
   simp only [rotA_smul]
+
+/-! ### rigid-body rotation (the case repaired in /repo: see DESIGN section 12) -/
+
+/-- a grain without active slip follows the vorticity of the flow: `Ȧ = A · skew(L)ᵀ` -/
+theorem noSlipRotation_matrix (A L : Mat3) : noSlipRotation A L = mmul A (tr (skew L)) := by
+  have h := orientationChange_matrix A L zero3 0
+  have hz : msub L (smul3 0 zero3) = L := by funext i j; simp [msub, smul3, zero3]
+  rw [hz] at h
+  simpa only [noSlipRotation, Mat3.memo_eq] using h
+
+/-- for a rigid-body rotation (`Lᵀ = −L`) that is `Ȧ = A · Lᵀ`: the crystal axes co-rotate with the body -/
+theorem noSlipRotation_rigid (A L : Mat3) (hL : ∀ i j, L i j + L j i = 0) : noSlipRotation A L = mmul A (tr L) := by
+  rw [noSlipRotation_matrix]
+  congr 2
+  funext i j
+  have := hL i j
+  simp only [skew]; linarith
+
+/-- **rigid rotation in a dislocation regime**: when the strain rate vanishes (`emax = 0`, symmetric part of `L` zero) the
+right-hand side is the rigid motion: `Ḟ = L F`, every grain `Ȧ = damp · A Lᵀ`, no volume change — the same expression in
+every frame (`rhs_objective`), which the unrepaired early return (zero rates) was not. -/
+theorem rigid_rotation_rhs (phase fabric : Int) (n : ℕ) (mp : MParams) (env : RhsEnv) (y : List ℝ) (crss : Crss) (phi : ℝ)
+    (hphi : lookupFraction mp.assemblage mp.fractions phase = .ok phi)
+    (hreg : env.regime = 4) (hc : getCrss phase fabric = .ok crss)
+    (he : env.emax = 0) (hL : ∀ i j, env.L i j + env.L j i = 0)
+    (hlen : (extractVars n y).2.A.length = (extractVars n y).2.f.length) :
+    evalRhs phase fabric n mp env y
+      = .ok (mat3ToList (mmul env.L (extractVars n y).1)
+              ++ ((extractVars n y).2.A.map (fun a => mmul a (tr env.L))).flatMap mat3ToList
+              ++ (extractVars n y).2.f.map (fun _ => 0)) := by
+  have hD1 : (fun i j => (env.L i j + env.L j i) / 2 / (1:ℝ)) = zero3 := by
+    funext i j; simp [hL i j, zero3]
+  have hL1 : (fun i j => env.L i j / (1:ℝ)) = env.L := by funext i j; simp
+  have h07 : ¬ ((4:Int) = 0 ∨ (4:Int) = 7) := by omega
+  simp only [evalRhs, hphi, he, Req_iff, if_true, Mat3.memo_eq, hD1, hL1, hreg, derivatives, hc]
+  norm_num
+  rw [dislocationRates_zeroD, zipWith_const_zero _ _ hlen]
+  have hfun : (fun a => smul3 1 (noSlipRotation a env.L)) = fun a => mmul a (tr env.L) := by
+    funext a
+    rw [noSlipRotation_rigid a env.L hL]
+    funext i j; simp [smul3]
+  simp [hfun]
+
+/-- the hypotheses are satisfiable by a genuine rotation rate: `L = e_y ⊗ e_x − e_x ⊗ e_y` is antisymmetric and non-zero -/
+example : ∃ L : Mat3, (∀ i j, L i j + L j i = 0) ∧ L 1 0 ≠ 0 :=
+  ⟨fun i j => if i = 1 ∧ j = 0 then 1 else if i = 0 ∧ j = 1 then -1 else 0, by
+    intro i j; fin_cases i <;> fin_cases j <;> simp, by simp⟩
 
 end ModelR
